@@ -312,7 +312,10 @@ def gen_consts():
     out.append("")
     # heading wrap
     h = strip_tests(read(os.path.join(CORE, "model/access/default/turn_delays/edge_heading.rs")))
-    m = re.search(r"let angle = destination\.start_heading\(\) - self\.end_heading\(\);\s*if angle > (\d+) \{\s*angle - (\d+)\s*\} else if angle < -(\d+) \{\s*angle \+ (\d+)\s*\} else \{\s*angle\s*\}", h)
+    # the difference is taken in i32 (no overflow: the model computes on Int), wrapped once, and clamped
+    # back into i16 — a clamped value is far outside [-180, 180], where Turn::from_angle refuses it, as
+    # the model's table lookup does for the unclamped integer
+    m = re.search(r"let angle = destination\.start_heading\(\) as i32 - self\.end_heading\(\) as i32;\s*let wrapped = if angle > (\d+) \{\s*angle - (\d+)\s*\} else if angle < -(\d+) \{\s*angle \+ (\d+)\s*\} else \{\s*angle\s*\};(?:\s*//[^\n]*)*\s*wrapped\.clamp\(i16::MIN as i32, i16::MAX as i32\) as i16", h)
     if not m:
         raise TranslateError("EdgeHeading::bearing_to_destination not recognised")
     out.append(f"def headingWrap : Int × Int × Int × Int := ({m.group(1)}, {m.group(2)}, {m.group(3)}, {m.group(4)})")
